@@ -342,7 +342,7 @@ Proof.
                /\ forall i, sl (get_path m7 i) = sl (get_path m3 i)).
   { subst m7. split; [reflexivity|]. split; [reflexivity|]. split; [reflexivity|]. split; [reflexivity|].
     split.
-    { cbn [cc_path set_path update_pto_timer backoff]. destruct (existsb (fun p => p_path p =? 0) acked); [right|left]; reflexivity. }
+    { cbn [cc_path set_path update_pto_timer backoff]. match goal with |- context[if ?b then initial_pto_backoff else _] => destruct b end; [right|left]; reflexivity. }
     split; [|split].
     - destruct Hrx as [-> | ->].
       + change (1 - 0) with 1. rewrite ccs_pa_cc_path. change (0 =? 0) with true. cbn match. cbn [update_pto_timer pa].
@@ -411,24 +411,24 @@ Ltac jopen :=
   rewrite nonneg_mobs by lia; cbn [negb];
   rewrite cc_of_tail0, cc_of_tail4, bo_tail.
 
-Lemma jstep_ok : forall sp m j c a b d e f g t, winv m -> now_pos m -> rel m j -> (c =? 6)%Z = false ->
+Lemma jstep_ok : forall m j c a b d e f g t, winv m -> now_pos m -> rel m j -> (c =? 6)%Z = false ->
   exists j',
     (let '(m', code, lost, hulls, stop) := mstep m c a b d e f g in
-     jstep_m true sp j c a b d e f g (mobs m' code lost hulls ++ t) = Some (j', t, false) /\ stop = false)
+     jstep_m true (m_space m =? 2) (m_client m) j c a b d e f g (mobs m' code lost hulls ++ t) = Some (j', t, false) /\ stop = false)
     /\ rel (mstep_state m c a b d e f g) j'.
 Proof.
-  intros sp m j c a b d e f g t W Hn (R1 & R2 & R3 & R4 & R5 & R6 & R7 & R8) H6.
+  intros m j c a b d e f g t W Hn (R1 & R2 & R3 & R4 & R5 & R6 & R7 & R8) H6.
   pose proof (winv_mstep m c a b d e f g W Hn H6) as [W' _].
   unfold mstep_state in *. unfold mstep in *. rewrite H6 in *.
   destruct (c =? 1)%Z eqn:E1.
   { (* on_packet_sent *)
     set (now := m_now m + zN e) in *.
     set (pn := match lastpn m with Some l => l + N.max (zN a) 1 | None => zN a - 1 end) in *.
-    set (path := if (f =? 0)%Z then 0 else 1) in *.
+    set (path := if single m || (f =? 0)%Z then 0 else 1) in *.
     set (m' := on_packet_sent (set_now m now) pn (zN b) (negb (d =? 0)%Z) now path) in *.
     eexists. split; [split; [|reflexivity]|].
     - jopen. rewrite E1. rewrite R1, R3, R4, R5, R6, R7.
-      fold now pn path.
+      change (m_client m || negb (m_space m =? 2)) with (single m). fold now pn path.
       assert (Ecc0 : ccs (pa m') = cc_add (ccs (pa m)) (if path =? 0 then zN b else 0) 0 0 0).
       { subst m'. unfold on_packet_sent. cbn [pa]. rewrite ccs_pa_cc_path. cbn [set_now pa].
         destruct (path =? 0); [reflexivity|rewrite cc_add_0; reflexivity]. }
@@ -462,9 +462,9 @@ Proof.
     destruct (match lastpn m with Some l => zN b <=? l | None => false end) eqn:Eok.
     - (* accepted frame *)
       set (rs := mk_ranges (zN b) (zN d) (zN e) (zN f)) in *.
-      set (rx := if (c =? 4)%Z then 1 else 0) in *.
+      set (rx := if (c =? 4)%Z && negb (single m) then 1 else 0) in *.
       destruct (ack_ranges (sentp m0) rs) as [[spx acked] ehulls] eqn:Ea.
-      assert (Hrx : rx = 0 \/ rx = 1) by (subst rx; destruct (c =? 4)%Z; auto).
+      assert (Hrx : rx = 0 \/ rx = 1) by (subst rx; destruct ((c =? 4)%Z && negb (single m)); auto).
       destruct (ack_full m0 now rs (zN b) (zN g * 1000) rx (zN b - zN d) spx acked ehulls W0 Hrx
                   (mk_ranges_first _ _ _ _) ltac:(lia) Ea)
         as (F1 & F2 & F3 & F4 & F5 & ls & F6 & F7 & F8 & F9 & F10 & F11 & F12).
@@ -521,11 +521,51 @@ Proof.
         assert (E1b : (1 <=? backoff m) = true) by lia. rewrite E1b. reflexivity.
       + unfold rel. cbn [j_un j_lg j_now j_last j_cc0 j_cc1 j_bo]. rewrite ?cc_add_0, P1, P2, P3, P4, P5, ?P6, ?P7.
         repeat split; try assumption; try reflexivity; try (symmetry; assumption); try congruence. subst now. rewrite R3. reflexivity. }
-  { (* any other code: nothing happens *)
+  destruct ((c =? 7)%Z && m_client m) eqn:E7.
+  { (* Retry *)
+    apply andb_prop in E7 as [E7 Ec]. rewrite E7, Ec in *.
+    set (m1 := if mp m then burst_complete m (m_now m) else m) in *.
+    assert (F : sentp m1 = sentp m /\ ccs (pa m1) = ccs (pa m) /\ ccs (pb m1) = ccs (pb m) /\ backoff m1 = backoff m
+                /\ m_now m1 = m_now m /\ lastpn m1 = lastpn m).
+    { subst m1. destruct (mp m); [|repeat split; reflexivity].
+      destruct (burst_facts m (m_now m)) as (B1 & B2 & B3 & B4 & B5 & B6 & B7). repeat split; assumption. }
+    destruct F as (F1 & F2 & F3 & F4 & F5 & F6).
     eexists. split; [split; [|reflexivity]|].
-    - jopen. rewrite E1, E34, E5, H6, E2. rewrite R1, R5, R6, R7, !cc_eqb_refl, N.eqb_refl, Z.eqb_refl.
+    - assert (G : ccs (pa (retry m1)) = cc_add (ccs (pa m)) 0 0 0 (fold_right (fun p acc => p_bytes p + acc) 0 (sentp m))
+                 /\ ccs (pb (retry m1)) = ccs (pb m) /\ backoff (retry m1) = backoff m).
+      { unfold retry. cbn [pa pb backoff]. rewrite ccs_pa_cc_path, ccs_pb_cc_path. change (0 =? 0) with true. cbn match.
+        cbn [cc_path set_path backoff]. rewrite F1, F2, F3, F4. repeat split; reflexivity. }
+      destruct G as (G1 & G2 & G3).
+      pose proof (bif_ok_winv _ W') as HB. change (sentp (retry m1)) with (@nil pkt) in HB.
+      jopen. rewrite ?E1, ?E34, ?E5, ?H6, ?E7, ?Ec. cbn [andb].
+      rewrite HB, G1, G2, G3, R1, R5, R6, R7, !cc_eqb_refl, N.eqb_refl, Z.eqb_refl. reflexivity.
+    - assert (G : ccs (pa (retry m1)) = cc_add (ccs (pa m)) 0 0 0 (fold_right (fun p acc => p_bytes p + acc) 0 (sentp m))
+                 /\ ccs (pb (retry m1)) = ccs (pb m) /\ backoff (retry m1) = backoff m
+                 /\ m_now (retry m1) = m_now m /\ lastpn (retry m1) = lastpn m).
+      { unfold retry. cbn [pa pb backoff m_now lastpn]. rewrite ccs_pa_cc_path, ccs_pb_cc_path. change (0 =? 0) with true. cbn match.
+        cbn [cc_path set_path backoff m_now lastpn]. rewrite F1, F2, F3, F4, F5, F6. repeat split; reflexivity. }
+      destruct G as (G1 & G2 & G3 & G4 & G5).
+      unfold rel. cbn [j_un j_lg j_now j_last j_cc0 j_cc1 j_bo]. rewrite ?G1, ?G2, ?G3, ?G4, ?G5, ?R1, ?R5.
+      change (sentp (retry m1)) with (@nil pkt). change (largest (retry m1)) with (@None N).
+      repeat split; try assumption; try reflexivity; try (symmetry; assumption); try congruence. }
+  { (* any other code (also Retry on a server, peer validation): the ledger does not move *)
+    assert (F : exists m', (let '(mm, code, lost, hulls, stop) :=
+                  (if (c =? 7)%Z then if m_client m then (retry (if mp m then burst_complete m (m_now m) else m), 0%Z, [], [], false) else (m, 0%Z, [], [], false)
+                   else if (c =? 8)%Z then (peer_validated m, 0%Z, [], [], false) else (m, 0%Z, [], [], false)) in
+                  mm = m' /\ code = 0%Z /\ lost = [] /\ hulls = [] /\ stop = false)
+                /\ sentp m' = sentp m /\ largest m' = largest m /\ lastpn m' = lastpn m /\ m_now m' = m_now m
+                /\ backoff m' = backoff m /\ ccs (pa m') = ccs (pa m) /\ ccs (pb m') = ccs (pb m)).
+    { destruct (c =? 7)%Z; [cbn [andb] in E7; rewrite E7|destruct (c =? 8)%Z]; eexists; (split; [repeat split; reflexivity|repeat split; reflexivity]). }
+    destruct F as (m' & F0 & F1 & F2 & F3 & F4 & F5 & F6 & F7).
+    destruct (if (c =? 7)%Z then if m_client m then (retry (if mp m then burst_complete m (m_now m) else m), 0%Z, [], [], false) else (m, 0%Z, [], [], false)
+              else if (c =? 8)%Z then (peer_validated m, 0%Z, [], [], false) else (m, 0%Z, [], [], false))
+      as [[[[mm code] lost] hulls] stop].
+    destruct F0 as (-> & -> & -> & -> & ->).
+    eexists. split; [split; [|reflexivity]|].
+    - jopen. rewrite E1, E34, E5, H6, E7, E2. cbn [andb]. rewrite F5, F6, F7, R1, R5, R6, R7, !cc_eqb_refl, N.eqb_refl, Z.eqb_refl.
       rewrite (bif_ok_winv m W). reflexivity.
-    - unfold rel. cbn [j_un j_lg j_now j_last j_cc0 j_cc1 j_bo]. repeat split; try assumption; try reflexivity; try (symmetry; assumption); try congruence. }
+    - unfold rel. cbn [j_un j_lg j_now j_last j_cc0 j_cc1 j_bo]. rewrite F1, F2, F3, F4, F5, F6, F7.
+      repeat split; try assumption; try reflexivity; try (symmetry; assumption); try congruence. }
 Qed.
 
 Fixpoint no_discard_ops (l : list Z) : bool :=
